@@ -1129,9 +1129,11 @@ func genMatchCase(r *rng) (bson.D, bson.D) {
 // family `matchref`: pairs from the (mostly) well-formed stream.  Observable:
 // the REAL Match result, then this harness's rendering of the reference
 // semantics and of the domain classification (ref_match.go):
-//   <T|F|ERR> -                    outside the property's domain D1–D4
-//   <T|F|ERR> <T|F> core           inside `core`
-//   <T|F|ERR> <T|F> <signature>    inside D1–D4, in the finding class <signature>
+//
+//	<T|F|ERR> -                    outside the property's domain D1–D4
+//	<T|F|ERR> <T|F> core           inside `core`
+//	<T|F|ERR> <T|F> <signature>    inside D1–D4, in the finding class <signature>
+//
 // The Coq side (Spec/RunRef.v) prints the model's Match result, RefMatch.holds
 // and RefMatch.domain_class.  Whether the real matcher AGREES with the
 // reference is judged by the oracle `reference` below, which can tell a known
